@@ -71,6 +71,9 @@ impl Model for M15 {
         if st.chain.is_empty() {
             // root: every codec encodes deterministically; fixed-size types have one length per (type, group)
             o.nontrivial = true;
+            // a copy made with Clone is the same value (every field carried over)
+            let cl = e.clone_is_equal(st.val);
+            o.expect(&format!("C15:clone-equals-original:{}", tn), cl == Ok(true), "equal value, equal encoding", &format!("{:?}", cl));
             for c in e.codecs() {
                 let a = e.encode(st.val, c);
                 let b = e.encode(st.val, c);
